@@ -1,7 +1,214 @@
-(* C17 — Run/Stop/Close lifecycle. Theorems only; model C17/Model.v (tied to distsys/mpcalctx.go by ./check C17). *)
-From PGV Require Import C17.Model C17.Proofs.
+(* C17 — Run/Stop/Close lifecycle: stops cleanly, never deadlocks, closes once.
+   Only the property theorems, each closed by `exact <lemma>` (or a two-line combination of lemmas), Print Assumptions
+   beneath.  Model: C17/Model.v — a transition system in which ANY number n of goroutines call Stop and ANY number m
+   call Run on one MPCalContext, every statement of Run/Stop/cleanupResources is one step, and an execution is ANY list
+   of steps (every interleaving).  `repaired` is the code after the two fix: commits (Stop case 1a sets exitRequested;
+   Run refuses a context that has already run); `pinned` is the code as it was.  The model is tied to
+   distsys/mpcalctx.go by the phase-scripted correspondence check (./check C17).
 
-Theorem exec_compositional : forall v cfg l1 l2 s,
-  exec v cfg s (l1 ++ l2) = match exec v cfg s l1 with Some s' => exec v cfg s' l2 | None => None end.
-Proof. exact exec_app. Qed.
-Print Assumptions exec_compositional.
+   In all theorems: cfg is any configuration (any plan of attempts of any finite durations, ending in any way or never;
+   any mix of leaf / HashMap / IncMap / Nested resources; any finite duration of every Close), n and m are any numbers
+   of Stop and Run callers, s is any state reachable by any interleaving. *)
+From PGV Require Import C17.Model C17.Proofs C17.Proofs2 C17.Proofs3 C17.Proofs4 C17.Proofs5.
+From Coq Require Import Lia.
+
+(* ---- run_at_most_once: however many goroutines call Run, at most one of them ever gets past the start-up check,
+   i.e. the archetype's loop and the deferred cleanup are entered at most once in the life of the context *)
+Theorem run_at_most_once : forall cfg n m s,
+  reachable repaired cfg n m s -> entered s <= 1.
+Proof.
+  intros cfg n m s H. pose proof (inv1_reachable cfg n m s H) as I.
+  destruct (started s) eqn:E; [destruct (iS1 s I E); lia|destruct (iS0 s I E) as (_ & _ & ?); lia].
+Qed.
+Print Assumptions run_at_most_once.
+
+(* ---- no_double_close: awaitExit is closed at most once (a second close would panic); at every moment every closable
+   thing (leaf resource, HashMap element, realised IncMap element, nested context) has been closed at most once;
+   the IncMap has created at most one element per key *)
+Theorem no_double_close : forall cfg n m s,
+  reachable repaired cfg n m s ->
+  awaitc s <= 1 /\ NoDup (closed s) /\ (forall x, count_occ inst_eq_dec (closed s) x <= 1) /\ NoDup (realised s).
+Proof.
+  intros cfg n m s H. pose proof (inv_reachable cfg n m s H) as I.
+  split; [apply (iA1 s (proj1 I))|]. split; [apply (closed_nodup cfg s I)|].
+  split; [intro x; apply count_occ_nodup_le; apply (closed_nodup cfg s I)|apply (jN cfg s (proj2 I))].
+Qed.
+Print Assumptions no_double_close.
+
+(* ---- closed_exactly_once: when a started run has ended — for whatever reason: Done, Stop, assertion, Error label,
+   resource error, panic — every configured resource and every element a map resource realised has been closed exactly
+   once, and nothing else has been closed.  (Holds from the moment cleanupResources has returned.) *)
+Theorem closed_exactly_once : forall cfg n m s x,
+  reachable repaired cfg n m s -> runner s = RRet ->
+  count_occ inst_eq_dec (closed s) x = if in_dec inst_eq_dec x (instances cfg (realised s)) then 1 else 0.
+Proof.
+  intros cfg n m s x H Hr. apply C17.Proofs5.closed_exactly_once; [eapply inv_reachable; exact H|].
+  left. rewrite Hr. reflexivity.
+Qed.
+Print Assumptions closed_exactly_once.
+
+(* ---- deadlock_free: as long as any call of Stop or Run is in flight (called, not yet returned), some in-flight
+   goroutine can take a step — not counting "somebody new calls Stop/Run" as progress *)
+Theorem deadlock_free : forall cfg n m s,
+  reachable repaired cfg n m s -> inflight s = true -> can_step repaired cfg s = true.
+Proof.
+  intros cfg n m s H. apply deadlock_free_lemma. eapply inv1_reachable; exact H.
+Qed.
+Print Assumptions deadlock_free.
+
+(* ---- stop_terminates, part 1: every step of every goroutine strictly decreases the measure mu, except the loop-head
+   poll finding no request (which starts another attempt) *)
+Theorem stop_terminates_measure : forall cfg n m s l s',
+  reachable repaired cfg n m s -> step repaired cfg s l = Some s' ->
+  poll_miss s l \/ mu cfg s' < mu cfg s.
+Proof.
+  intros cfg n m s l s' H. apply mu_step. eapply inv_reachable; exact H.
+Qed.
+Print Assumptions stop_terminates_measure.
+
+(* ---- stop_terminates, part 2: a Stop call that has got past its request (it is unlocking, waiting on awaitExit, or has
+   returned) has put an exit request in force (`leaving`) ... *)
+Theorem stop_request_in_force : forall cfg n m s,
+  reachable repaired cfg n m s -> 0 < cnt s SUnl + cnt s SWait + cnt s SRet -> leaving s.
+Proof.
+  intros cfg n m s H. apply past_request_leaving. eapply inv1_reachable; exact H.
+Qed.
+Print Assumptions stop_request_in_force.
+
+(* ... and from then on EVERY execution — any scheduling, any further callers — has at most mu(s) steps, stays `leaving`,
+   and by deadlock_free cannot stop while a call is in flight: so it ends with every Stop that was called returned *)
+Theorem stop_terminates : forall cfg n m s ls s',
+  reachable repaired cfg n m s -> leaving s -> exec repaired cfg s ls = Some s' ->
+  List.length ls + mu cfg s' <= mu cfg s /\ leaving s'.
+Proof.
+  intros cfg n m s ls s' H Hl He.
+  destruct (leaving_bounded cfg ls s s' (inv_reachable cfg n m s H) Hl He) as (H1 & H2 & _). auto.
+Qed.
+Print Assumptions stop_terminates.
+
+Theorem quiescent_means_all_returned : forall cfg n m s,
+  reachable repaired cfg n m s -> inflight s = false ->
+  cnt s SIdle + cnt s SRet = n /\
+  cnt s RIdle + cnt s RRefused + cnt s RNotStarted + b2n (rpc_beq (runner s) RRet) = m.
+Proof.
+  intros cfg n m s H. apply quiescent_all_returned. eapply cons_reachable; exact H.
+Qed.
+Print Assumptions quiescent_means_all_returned.
+
+(* ---- stop_returns_after_the_end: when a Stop call has returned, either the started run has finished its cleanup
+   (every closable closed, awaitExit closed), or the run has not started and never will *)
+Theorem stop_returns_after_the_end : forall cfg n m s,
+  reachable repaired cfg n m s -> 0 < cnt s SRet ->
+  awaitc s = 1 /\
+  ((r_after (runner s) = true /\ todo s = [] /\ rev (closed s) = instances cfg (realised s))
+   \/ (started s = false /\ exitReq s = true /\ entered s = 0 /\ closed s = [])).
+Proof.
+  intros cfg n m s H. apply stop_returned_means. eapply inv_reachable; exact H.
+Qed.
+Print Assumptions stop_returns_after_the_end.
+
+(* ---- no_commit_after_stop: once a Stop call has returned, no execution whatsoever commits another critical section
+   or lets a run start *)
+Theorem no_commit_after_stop : forall cfg n m s ls s',
+  reachable repaired cfg n m s -> 0 < cnt s SRet -> exec repaired cfg s ls = Some s' ->
+  commits s' = commits s /\ entered s' = entered s.
+Proof.
+  intros cfg n m s ls s' H Hr He. pose proof (inv_reachable cfg n m s H) as I.
+  destruct (await_closed_exec cfg ls s s' I (iB s (proj1 I) Hr) He) as (_ & H1 & H2). auto.
+Qed.
+Print Assumptions no_commit_after_stop.
+
+(* ---- outcomes_distinct: a started run that has returned reports exactly one result: the way it ended together with
+   whether a Close failed; before that it reports nothing; and the reported class separates normal termination,
+   assertion failure, Error label, resource error and panic *)
+Theorem run_reports_once : forall cfg n m s,
+  reachable repaired cfg n m s ->
+  (runner s = RRet -> exists w, results s = [mkRes (Some w) (close_err cfg (closed s))]) /\
+  (runner s <> RRet -> results s = []).
+Proof.
+  intros cfg n m s H. pose proof (inv_reachable cfg n m s H) as I.
+  split; [apply (run_result cfg s I)|apply (no_result_before_end cfg s I)].
+Qed.
+Print Assumptions run_reports_once.
+
+Theorem outcomes_distinct : forall w1 c1 w2 c2,
+  class_of (mkRes (Some w1) c1) = class_of (mkRes (Some w2) c2) ->
+  kind w1 = kind w2 /\ (w1 <> EPanic -> c1 = c2).
+Proof. exact class_distinct. Qed.
+Print Assumptions outcomes_distinct.
+
+(* ---- nested_drained: a Nested resource's Close calls Stop once on each context inside and waits for its Run to return.
+   For that inner context (one Run caller, started when the resource was built; one Stop caller, from Close) the theorems
+   above give: once that Stop is past its request every execution is finite, it cannot get stuck while a call is in flight,
+   and when nothing is in flight the Stop has returned, the Run call has ended (returned, or never started) and, if it
+   ran, every resource of the inner context has been closed exactly once.  In the outer context the Nested resource is a
+   closable whose Close takes that finite time (c_cdur). *)
+Lemma reachable_exec : forall v cfg n m s ls s',
+  reachable v cfg n m s -> exec v cfg s ls = Some s' -> reachable v cfg n m s'.
+Proof.
+  intros v cfg n m s ls s' [l0 H0] H. exists (l0 ++ ls). rewrite exec_app, H0. exact H.
+Qed.
+
+Theorem nested_drained : forall cfg s ls s' x,
+  reachable repaired cfg 1 1 s -> leaving s -> exec repaired cfg s ls = Some s' ->
+  List.length ls <= mu cfg s /\
+  (inflight s' = true -> can_step repaired cfg s' = true) /\
+  (inflight s' = false ->
+     cnt s' SIdle + cnt s' SRet = 1 /\
+     cnt s' RIdle + cnt s' RRefused + cnt s' RNotStarted + b2n (rpc_beq (runner s') RRet) = 1 /\
+     (runner s' = RRet ->
+      count_occ inst_eq_dec (closed s') x = if in_dec inst_eq_dec x (instances cfg (realised s')) then 1 else 0)).
+Proof.
+  intros cfg s ls s' x H Hl He.
+  pose proof (reachable_exec _ _ _ _ _ _ _ H He) as H'.
+  destruct (stop_terminates cfg 1 1 s ls s' H Hl He) as [Hb _].
+  split; [lia|]. split; [apply (deadlock_free cfg 1 1 s' H')|].
+  intros Hq. destruct (quiescent_means_all_returned cfg 1 1 s' H' Hq) as [Q1 Q2].
+  split; [exact Q1|]. split; [exact Q2|]. intros Hr. apply (closed_exactly_once cfg 1 1 s' x H' Hr).
+Qed.
+Print Assumptions nested_drained.
+
+(* ---- the code as pinned: the statement is false there, and the model says so.
+   Two Stop calls overlapping a run that ends by a failed assertion deadlock (one blocked sending on the full buffer
+   while holding runStateLock, one waiting for awaitExit, Run's deferred cleanup waiting for runStateLock); a second Run
+   after the first has ended runs again, closes the resource twice and closes awaitExit twice.  Both replayed on the
+   real code before the fix: commits (corpus/C17). *)
+Theorem pinned_deadlocks :
+  exists s, exec pinned cfg_assert (init 2 1) deadlock_trace = Some s /\
+            inflight s = true /\ can_step pinned cfg_assert s = false /\
+            cnt s SSend = 1 /\ cnt s SWait = 1 /\ runner s = RLock1 /\ lock s = true.
+Proof. exact pinned_deadlocks_lemma. Qed.
+Print Assumptions pinned_deadlocks.
+
+Theorem pinned_runs_twice :
+  exists s, exec pinned cfg_done (init 0 2) (one_run ++ second_run) = Some s /\
+            entered s = 2 /\ closed s = [ILeaf 0; ILeaf 0] /\ awaitc s = 2.
+Proof. exact pinned_runs_twice_lemma. Qed.
+Print Assumptions pinned_runs_twice.
+
+(* ---- non-vacuity: a concrete run with three Stops overlapping a slow cleanup (the schedule that deadlocks the pinned
+   code) is reachable in the repaired model, ends with everything returned, and meets the hypotheses used above *)
+Definition cfg_ex : config :=
+  mkCfg (plan_of [mkAtt 1 WCommit [1; 2]; mkAtt 0 WAbort [2; 3]; mkAtt 2 WCommit []]) false [false; true] 2 true 1
+        (fun x => match x with ILeaf _ => 2 | _ => 1 end).
+Definition sc_ex : script := mkScript 0 false 0 2 [(1, 1)] None 2 1 1.
+
+Example c17_nonvacuous :
+  let s := run_script repaired cfg_ex sc_ex in
+  inflight s = false /\ cnt s SRet = 4 /\ cnt s RRefused = 1 /\ entered s = 1 /\ commits s = 1 /\
+  realised s = [1; 2; 3] /\ List.length (closed s) = 8 /\ awaitc s = 1 /\
+  map class_of (results s) = [8].
+Proof. vm_compute. repeat split; reflexivity. Qed.
+
+Example c17_leaving_reached :
+  exists ls s, exec repaired cfg_assert (init 2 1) ls = Some s /\ cnt s SWait = 1 /\ leaving s /\ 0 < mu cfg_assert s.
+Proof.
+  exists [LC RIdle; LC RLock; LC RHold; LC RUnlGo; LR; LR; LC SIdle; LC SLock; LC SHold; LC SSet1a; LC SSend; LC SUnl].
+  destruct (ex_of_check (exec repaired cfg_assert (init 2 1)
+     [LC RIdle; LC RLock; LC RHold; LC RUnlGo; LR; LR; LC SIdle; LC SLock; LC SHold; LC SSet1a; LC SSend; LC SUnl])
+     (fun s => (cnt s SWait =? 1) && exitReq s && (cnt s SSend =? 0) && (0 <? mu cfg_assert s))) as (s & Hs & Hc);
+    [vm_compute; reflexivity|].
+  exists s. split; [exact Hs|].
+  repeat (apply Bool.andb_true_iff in Hc; destruct Hc as [Hc ?]).
+  split; [apply Nat.eqb_eq; assumption|]. split; [left; split; [assumption|apply Nat.eqb_eq; assumption]|apply Nat.ltb_lt; assumption].
+Qed.
